@@ -208,7 +208,7 @@ macro_rules! min_by_key {
     ($left:expr, $right:expr, $($comparator:tt)*) => {
         $crate::__::__parse_closure_1!{
             ($crate::__minmax_by_key)
-            ($left, $right, Greater,)
+            ($left, $right, Min,)
             (min_by_key),
 
             $($comparator)*
@@ -246,7 +246,7 @@ macro_rules! max_by_key {
     ($left:expr, $right:expr, $($comparator:tt)*) => {
         $crate::__::__parse_closure_1!{
             ($crate::__minmax_by_key)
-            ($right, $left, Less,)
+            ($left, $right, Max,)
             (max_by_key),
 
             $($comparator)*
@@ -259,7 +259,7 @@ macro_rules! max_by_key {
 #[cfg_attr(feature = "docsrs", doc(cfg(feature = "cmp")))]
 macro_rules! __minmax_by_key {
     (
-        $left:expr, $right:expr, $ord:ident,
+        $left:expr, $right:expr, $min_or_max:ident,
         ($($elem:tt)*) $(-> $ret_ty:ty)? $v:block
     ) => {
         match [$left, $right] {
@@ -274,12 +274,34 @@ macro_rules! __minmax_by_key {
                     $v
                 };
 
-                if let $crate::__::$ord = $crate::const_cmp!(left_key, right_key) {
+                $crate::__minmax_by_key_select!{
+                    $min_or_max,
+                    $crate::const_cmp!(left_key, right_key),
+                    left,
                     right
-                } else {
-                    left
                 }
             }
+        }
+    };
+}
+
+// Both `min_by_key` and `max_by_key` evaluate `$left` before `$right`,
+// they only differ in which of them is returned.
+#[macro_export]
+#[doc(hidden)]
+macro_rules! __minmax_by_key_select {
+    (Min, $ordering:expr, $left:ident, $right:ident) => {
+        if let $crate::__::Greater = $ordering {
+            $right
+        } else {
+            $left
+        }
+    };
+    (Max, $ordering:expr, $left:ident, $right:ident) => {
+        if let $crate::__::Greater = $ordering {
+            $left
+        } else {
+            $right
         }
     };
 }
